@@ -125,7 +125,10 @@ NOT_YET = {}
 ADDENDA = {
  "C02": " Added: the size-bound clause for the BASE MODULES of TopoART and DualVigilanceART, generically in the base module (Wrap_bound.v) and instantiated for Fuzzy (|w| >= rho d), Hypersphere and Ellipsoid ART at the level of whole fit calls, under every mode that never lowers the vigilance (true only since /repo 79caf04 / 8381662: match tracking fires on vigilance-passing vetoed categories alone). Oracles: wrapped streams with reset functions, late set_params on the base module, DualVigilanceART over BayesianART, boundary beta_lower; probes of the independent audits (DESIGN 0.9).",
  "C04": " Added: whole-call totality for two compound estimators, TopoART and DualVigilanceART over Fuzzy ART with alpha > 0 (two-winner search, both updates, pruning rounds with re-prediction; the category-to-cluster map is total by the map invariant). Oracle: every boundary value of every hyper-parameter that validate_params accepts must train and predict (found and repaired: tau=0, r_hat<=0, sigma_init<=0, L=inf, singular cov_init); audit probes.",
- "C08": " The purity snapshot compares the whole __dict__ (remembered widths included; CVIART.predict creating dim_ was a genuine defect, repaired).",
+ "C05": " Added (axiom-free): the same invariant for the A side of SimpleARTMAP / ARTMAP - established by a one-epoch fit, preserved by every partial_fit, together with 'one stored target per A-side label' (SAM_book.v). Oracle: a label must be usable as an index (integer dtype).",
+ "C07": " Added (axiom-free): every training call of SimpleARTMAP, DualVigilanceART and TopoART leaves the wrapped module's vigilance as configured, for every kernel, mode, epsilon and reset function, through every exit path and pruning round (Wrap_rho.v).",
+ "C06": " Added (axiom-free): the same batching theorems for SimpleARTMAP (whole state incl. the category-to-class map and the stored targets; first call and later calls; any partition into batches; fit = any batching on a fresh estimator) for ARTMAP (B side + A side on the batch's B labels) and for the DeepARTMAP / SMART layer chain (SAM_hist.v, Deep_hist.v).",
+ "C08": " Added (axiom-free, Wrap_pred.v): DualVigilanceART and SimpleARTMAP predict row by row, each row gets the map image of the base module's oldest arg-max category, and a DualVigilanceART prediction is < n_clusters. The purity snapshot compares the whole __dict__ (remembered widths included; CVIART.predict creating dim_ was a genuine defect, repaired).",
  "C11": " Added: with channels withheld the activation IS the gamma-weighted sum of the remaining channels' own activations (Fusion_skip.v; a skipped channel contributes 0 since /repo ee23ec6), prepare/restore with skipped channels (Fusion_prep.v). Oracles: arbitrary fillers (NaN, out of range, not complement coded) in the skipped columns, step_pred with negative indices, non-dyadic gammas with all but one channel withheld (rounding), an ART1 channel withheld, channels of mixed dtypes.",
  "C13": " Added: every base category obeys the base module's upper-vigilance bound after every whole fit call (Fuzzy, Hypersphere, Ellipsoid instances of the generic theorem in Wrap_bound.v).",
  "C14": " Added: both winners passed a vigilance at least as large as the configured one under every mode that never lowers it (Topo_bound.v), with the pre-fix search kept as a refuted variant (C14_search_before_fix_refuted); re-labelling at a pruning round (Topo_labels.v).",
